@@ -833,6 +833,97 @@ fn main() {
                 });
                 out
             }
+            // scram_replay: an honest SCRAM-SHA-256 client authenticates against the crate's listener through a tap that
+            //   records what the client sends; then a peer WITHOUT the password connects to the same listener and replays
+            //   the recorded sasl header, sasl-init and sasl-response verbatim. The listener must not answer ok.
+            #[cfg(feature = "scram")]
+            "scram_replay" => {
+                use fe2o3_amqp::acceptor::{scram::SingleScramCredential, ConnectionAcceptor};
+                use fe2o3_amqp::auth::scram::{ScramAuthenticator, ScramVersion};
+                use fe2o3_amqp_types::sasl::{SaslChallenge, SaslCode, SaslOutcome};
+                use std::sync::{Arc, Mutex};
+                use tokio::io::{AsyncReadExt, AsyncWriteExt};
+                let rt = tokio::runtime::Builder::new_current_thread().enable_time().build().unwrap();
+                rt.block_on(async move {
+                    async fn pump<R: tokio::io::AsyncRead + Unpin, W: tokio::io::AsyncWrite + Unpin>(mut from: R, mut to: W, record: Option<Arc<Mutex<Vec<u8>>>>) {
+                        let mut buf = [0u8; 1024];
+                        loop {
+                            match from.read(&mut buf).await {
+                                Ok(0) | Err(_) => break,
+                                Ok(n) => {
+                                    if let Some(r) = &record {
+                                        r.lock().unwrap().extend_from_slice(&buf[..n]);
+                                    }
+                                    if to.write_all(&buf[..n]).await.is_err() {
+                                        break;
+                                    }
+                                }
+                            }
+                        }
+                        let _ = to.shutdown().await;
+                    }
+                    async fn read_frame_body(io: &mut tokio::io::DuplexStream) -> Option<Vec<u8>> {
+                        let size = io.read_u32().await.ok()? as usize;
+                        let mut frame = vec![0u8; size.checked_sub(4)?];
+                        io.read_exact(&mut frame).await.ok()?;
+                        Some(frame.get(4..)?.to_vec())
+                    }
+                    let out = tokio::time::timeout(std::time::Duration::from_secs(10), async {
+                        let credential = SingleScramCredential::new("user", "pencil", ScramVersion::Sha256).map_err(|_| "credential")?;
+                        let acceptor = Arc::new(ConnectionAcceptor::builder().container_id("listener").sasl_acceptor(ScramAuthenticator::new(Arc::new(credential))).build());
+                        let (client_io, tap_client_side) = tokio::io::duplex(8192);
+                        let (tap_server_side, server_io) = tokio::io::duplex(8192);
+                        let recording = Arc::new(Mutex::new(Vec::new()));
+                        let (tap_c_rd, tap_c_wr) = tokio::io::split(tap_client_side);
+                        let (tap_s_rd, tap_s_wr) = tokio::io::split(tap_server_side);
+                        tokio::spawn(pump(tap_c_rd, tap_s_wr, Some(recording.clone())));
+                        tokio::spawn(pump(tap_s_rd, tap_c_wr, None));
+                        let acc = acceptor.clone();
+                        let server = tokio::spawn(async move { acc.accept(server_io).await });
+                        let client = tokio::spawn(async move { fe2o3_amqp::Connection::builder().container_id("honest").sasl_profile(fe2o3_amqp::sasl_profile::SaslScramSha256::new("user", "pencil")).open_with_stream(client_io).await });
+                        let honest_server = server.await.map_err(|_| "server_task")?;
+                        let honest_client = client.await.map_err(|_| "client_task")?;
+                        if honest_server.is_err() || honest_client.is_err() {
+                            return Err("honest_login_failed");
+                        }
+                        let recorded = recording.lock().unwrap().clone();
+                        if recorded.len() < 16 {
+                            return Err("nothing_recorded");
+                        }
+                        let mut cur = &recorded[..];
+                        let take_header = |c: &mut &[u8]| { let (h, r) = c.split_at(8); *c = r; h.to_vec() };
+                        let take_frame = |c: &mut &[u8]| { let n = u32::from_be_bytes([c[0], c[1], c[2], c[3]]) as usize; let (f, r) = c.split_at(n.min(c.len())); *c = r; f.to_vec() };
+                        let sasl_header = take_header(&mut cur);
+                        let sasl_init = take_frame(&mut cur);
+                        let sasl_response = take_frame(&mut cur);
+                        let _keep = (honest_server, honest_client);
+                        let (mut peer, server_io) = tokio::io::duplex(8192);
+                        let acc = acceptor.clone();
+                        let server = tokio::spawn(async move { acc.accept(server_io).await });
+                        peer.write_all(&sasl_header).await.map_err(|_| "write")?;
+                        peer.write_all(&sasl_init).await.map_err(|_| "write")?;
+                        let mut header = [0u8; 8];
+                        peer.read_exact(&mut header).await.map_err(|_| "read_header")?;
+                        let _mechs = read_frame_body(&mut peer).await.ok_or("read_mechanisms")?;
+                        let mut body = read_frame_body(&mut peer).await.ok_or("read_challenge")?;
+                        if serde_amqp::from_slice::<SaslChallenge>(&body).is_ok() {
+                            peer.write_all(&sasl_response).await.map_err(|_| "write")?;
+                            body = read_frame_body(&mut peer).await.ok_or("read_outcome")?;
+                        }
+                        let outcome: SaslOutcome = serde_amqp::from_slice(&body).map_err(|_| "outcome")?;
+                        let ok = matches!(outcome.code, SaslCode::Ok);
+                        drop(peer);
+                        let _ = tokio::time::timeout(std::time::Duration::from_secs(2), server).await;
+                        Ok::<_, &'static str>(ok)
+                    })
+                    .await
+                    .unwrap_or(Err("hang"));
+                    match out {
+                        Ok(accepted) => format!("{{\"client\":\"ok\",\"replay_accepted\":{}}}", accepted),
+                        Err(e) => format!("{{\"client\":\"{}\",\"replay_accepted\":false}}", e),
+                    }
+                })
+            }
             // sasl_outcome <code 0..4>: a real client with the PLAIN profile against a scripted server that answers
             //   init with sasl-outcome{code}; reports whether the client went on to the AMQP header
             "sasl_outcome" => {
@@ -1095,7 +1186,7 @@ fn main() {
                 } else {
                     t.set_decoder_max_frame_size(nums[1] as usize);
                 }
-                "{\"panic\":false}".to_string()
+                format!("{{\"panic\":false,\"encoder_max\":{}}}", t.encoder_max_frame_size())
             }
             // chunks <target encoded length>: send one Open frame whose encoding is exactly that long
             // through a real Transport (max-frame-size 512) and look at the frames on the wire
@@ -1323,6 +1414,68 @@ fn main() {
                     "dec32" => three(Dec32::from([1u8, 2, 3, 4]), tree),
                     "symbol" => three(Symbol::from("key"), tree),
                     _ => three(Timestamp::from_milliseconds(12), tree),
+                };
+                format!("{{\"agree\":{}}}", agree)
+            }
+            // ioread_big <n>: a binary of n bytes (and a string of n bytes) followed by a trailing value, decoded from a
+            //   reader and from a slice: both must give the value back
+            "ioread_big" => {
+                let n = nums[0] as usize;
+                let data: Vec<u8> = (0..n).map(|i| (i % 251) as u8).collect();
+                let bin = serde_bytes::ByteBuf::from(data.clone());
+                let text: String = (0..n).map(|i| (b'a' + (i % 26) as u8) as char).collect();
+                let mut a = serde_amqp::to_vec(&bin).unwrap();
+                a.extend_from_slice(&[0x50, 0x07]);
+                let mut b = serde_amqp::to_vec(&text).unwrap();
+                b.extend_from_slice(&[0x50, 0x07]);
+                let ra = serde_amqp::from_reader::<serde_bytes::ByteBuf>(&a[..]);
+                let sa = serde_amqp::from_slice::<serde_bytes::ByteBuf>(&a[..a.len() - 2]);
+                let rb = serde_amqp::from_reader::<String>(&b[..]);
+                let agree = matches!((&ra, &sa), (Ok(x), Ok(y)) if x == y && x.as_ref() == &data[..]) && matches!(&rb, Ok(t) if *t == text);
+                format!("{{\"agree\":{}}}", agree)
+            }
+            // hdrsize <map|list> <L>: a map / list whose entries take exactly L bytes (where that is possible):
+            //   serialized_size == to_vec(..).len(), and the bytes decode back
+            "hdrsize" => {
+                use serde_amqp::primitives::OrderedMap;
+                let l = nums[1] as usize;
+                let agree = if toks.get(1).copied() == Some("list") {
+                    if l == 0 {
+                        let x: Vec<u8> = vec![];
+                        serde_amqp::serialized_size(&x).ok() == serde_amqp::to_vec(&x).ok().map(|v| v.len())
+                    } else if l < 2 {
+                        true
+                    } else {
+                        // one binary element: vbin8 (2 + n) up to n = 255, vbin32 (5 + n) beyond
+                        let n = if l - 2 <= 255 { Some(l - 2) } else if l >= 5 + 256 { Some(l - 5) } else { None };
+                        match n {
+                            None => true,
+                            Some(n) => {
+                                let x = (serde_bytes::ByteBuf::from(vec![7u8; n]),);
+                                let bytes = serde_amqp::to_vec(&x).unwrap();
+                                let back = serde_amqp::from_slice::<(serde_bytes::ByteBuf,)>(&bytes);
+                                serde_amqp::serialized_size(&x).unwrap() == bytes.len() && matches!(back, Ok(y) if y.0.len() == n)
+                            }
+                        }
+                    }
+                } else if l == 0 {
+                    let x: OrderedMap<u8, u8> = OrderedMap::new();
+                    serde_amqp::serialized_size(&x).ok() == serde_amqp::to_vec(&x).ok().map(|v| v.len())
+                } else if l < 4 {
+                    true
+                } else {
+                    // ubyte key (2) + one binary value
+                    let n = if l - 4 <= 255 { Some(l - 4) } else if l >= 7 + 256 { Some(l - 7) } else { None };
+                    match n {
+                        None => true,
+                        Some(n) => {
+                            let mut x: OrderedMap<u8, serde_bytes::ByteBuf> = OrderedMap::new();
+                            x.insert(7u8, serde_bytes::ByteBuf::from(vec![9u8; n]));
+                            let bytes = serde_amqp::to_vec(&x).unwrap();
+                            let back = serde_amqp::from_slice::<OrderedMap<u8, serde_bytes::ByteBuf>>(&bytes);
+                            serde_amqp::serialized_size(&x).unwrap() == bytes.len() && matches!(back, Ok(y) if y == x)
+                        }
+                    }
                 };
                 format!("{{\"agree\":{}}}", agree)
             }
@@ -2667,6 +2820,107 @@ fn main() {
                                     format!("{{\"client\":\"ok\",\"completed\":{},\"send_futures_dropped\":{},\"receiver_saw\":{},\"last_send_completed\":{},\"starved\":{},\"partial_deliveries\":{},\"transfers\":{}}}", completed, dropped, seen, last.is_ok(), starved, partial, xs.len())
                                 }
                             }
+                        }
+                        // credit_without_delivery_count: the peer (receiver) grants a client-side sender 2 credits with a flow that
+                        //   carries the handle and link-credit but NO delivery-count (legal: it has not seen the sender's yet).
+                        //   A send must complete.
+                        "credit_without_delivery_count" => {
+                            use fe2o3_amqp_types::performatives::Flow;
+                            let cfg = sp::PeerCfg { credit: None, ..Default::default() };
+                            let peer = tokio::spawn(sp::run(peer_io, sp::PeerCfg { credit: None, ..Default::default() }, move |f: &Frame, _log: &[String]| {
+                                let mut act = sp::Act::default();
+                                if let FrameBody::Attach(a) = &f.body {
+                                    act.replies = sp::default_answers(f, &cfg).0;
+                                    act.replies.push(Frame::new(f.channel, FrameBody::Flow(Flow { next_incoming_id: Some(0), incoming_window: 2048, next_outgoing_id: 0, outgoing_window: 2048, handle: Some(a.handle.clone()), delivery_count: None, link_credit: Some(2), available: None, drain: false, echo: false, properties: None })));
+                                    act.handled = true;
+                                }
+                                act
+                            }));
+                            let client = tokio::time::timeout(Duration::from_secs(6), async {
+                                let mut conn = fe2o3_amqp::Connection::builder().container_id("client").open_with_stream(client_io).await.map_err(|_| "open_failed")?;
+                                let mut session = fe2o3_amqp::Session::begin(&mut conn).await.map_err(|_| "begin_failed")?;
+                                let mut sender = fe2o3_amqp::Sender::attach(&mut session, "s-1", "q1").await.map_err(|_| "attach_failed")?;
+                                let m = fe2o3_amqp::Sendable::builder().message("m".to_string()).settled(true).build();
+                                let sent = tokio::time::timeout(Duration::from_millis(1500), sender.send(m)).await.is_ok();
+                                std::mem::forget(sender);
+                                let _ = tokio::time::timeout(Duration::from_secs(1), session.end()).await;
+                                let _ = tokio::time::timeout(Duration::from_secs(1), conn.close()).await;
+                                Ok::<_, &'static str>(sent)
+                            })
+                            .await
+                            .unwrap_or(Err("hang"));
+                            let log = tokio::time::timeout(Duration::from_secs(2), peer).await.ok().and_then(|r| r.ok()).unwrap_or_default();
+                            let arrived = log.iter().any(|l| l.starts_with("transfer:"));
+                            format!("{{\"client\":\"{}\",\"send_completed\":{},\"log\":{}}}", match &client { Ok(_) => "ok", Err(e) => e }, matches!(client, Ok(true)) && arrived, sp::json_list(&log))
+                        }
+                        // idle_while_sending: the client configures idle_time_out(600 ms); the peer advertises 200 ms, so the
+                        //   client sends a heartbeat every 200 ms; the peer itself stays silent. The client must report the idle
+                        //   time-out (between 0.5 s and 1.6 s), although it keeps sending.
+                        "idle_while_sending" => {
+                            let cfg = sp::PeerCfg { idle_time_out: Some(200), ..Default::default() };
+                            let peer = tokio::spawn(sp::run(peer_io, cfg, |_f: &Frame, _log: &[String]| sp::Act::default()));
+                            let t0 = std::time::Instant::now();
+                            let r = tokio::time::timeout(Duration::from_millis(3000), async {
+                                let mut conn = match fe2o3_amqp::Connection::builder().container_id("client").idle_time_out(600u32).open_with_stream(client_io).await {
+                                    Ok(c) => c,
+                                    Err(_) => return "open_failed",
+                                };
+                                match conn.on_close().await {
+                                    Err(fe2o3_amqp::connection::Error::TransportError(fe2o3_amqp::transport::Error::IdleTimeoutElapsed)) => "idle_timeout",
+                                    Err(_) => "other_error",
+                                    Ok(()) => "closed_ok",
+                                }
+                            })
+                            .await
+                            .unwrap_or("no_timeout");
+                            let elapsed = t0.elapsed().as_millis();
+                            peer.abort();
+                            let result = if r == "idle_timeout" && (500..=1600).contains(&elapsed) { "idle_timeout" } else if r == "idle_timeout" { "idle_timeout_at_wrong_time" } else { r };
+                            format!("{{\"result\":\"{}\",\"elapsed_ms\":{}}}", result, elapsed)
+                        }
+                        // empty_first_fragment: a delivery whose first transfer frame (more=true) has an EMPTY payload and carries
+                        //   delivery-id, tag and format; the second frame carries the whole message and omits them.
+                        "empty_first_fragment" => {
+                            use fe2o3_amqp_types::definitions::Handle;
+                            use fe2o3_amqp_types::performatives::Transfer;
+                            use fe2o3_amqp_types::primitives::Binary;
+                            fn xfer(ch: u16, handle: Handle, first: bool, body: Vec<u8>) -> Frame {
+                                let performative = Transfer { handle, delivery_id: if first { Some(0) } else { None }, delivery_tag: if first { Some(Binary::from(vec![0u8, 0, 0, 0])) } else { None }, message_format: if first { Some(0) } else { None }, settled: if first { Some(true) } else { None }, more: first, rcv_settle_mode: None, state: None, resume: false, aborted: false, batchable: false };
+                                Frame::new(ch, FrameBody::Transfer { performative, payload: Bytes::from(body) })
+                            }
+                            let mut sent = false;
+                            let peer = tokio::spawn(sp::run(peer_io, sp::PeerCfg::default(), move |f: &Frame, _log: &[String]| {
+                                let mut act = sp::Act::default();
+                                if let FrameBody::Flow(fl) = &f.body {
+                                    if let (Some(h), false) = (fl.handle.clone(), sent) {
+                                        sent = true;
+                                        act.replies.push(xfer(f.channel, h.clone(), true, vec![]));
+                                        act.replies.push(xfer(f.channel, h, false, vec![0x00, 0x53, 0x77, 0xa0, 0x03, 1, 2, 3]));
+                                    }
+                                }
+                                act
+                            }));
+                            let client = tokio::time::timeout(Duration::from_secs(6), async {
+                                let mut conn = fe2o3_amqp::Connection::builder().container_id("client").open_with_stream(client_io).await.map_err(|_| "open_failed")?;
+                                let mut session = fe2o3_amqp::Session::begin(&mut conn).await.map_err(|_| "begin_failed")?;
+                                let mut receiver = fe2o3_amqp::Receiver::attach(&mut session, "r-1", "q1").await.map_err(|_| "attach_failed")?;
+                                let r = tokio::time::timeout(Duration::from_secs(2), receiver.recv::<serde_bytes::ByteBuf>()).await;
+                                let res = match r {
+                                    Err(_) => "recv_timeout",
+                                    Ok(Err(_)) => "recv_error",
+                                    Ok(Ok(d)) if d.body().to_vec() == vec![1u8, 2, 3] => "intact",
+                                    Ok(Ok(_)) => "wrong_body",
+                                };
+                                std::mem::forget(receiver);
+                                let _ = tokio::time::timeout(Duration::from_secs(1), session.end()).await;
+                                let _ = tokio::time::timeout(Duration::from_secs(1), conn.close()).await;
+                                Ok::<_, &'static str>(res)
+                            })
+                            .await
+                            .unwrap_or(Err("hang"));
+                            peer.abort();
+                            let res = client.unwrap_or_else(|e| e);
+                            format!("{{\"client\":\"{}\",\"intact\":{}}}", res, res == "intact")
                         }
                         _ => "{\"error\":\"unknown scenario\"}".to_string(),
                     }
